@@ -46,82 +46,65 @@ Proof. destruct t; simpl; auto; discriminate. Qed.
 (* has_var of a function, unfolded once *)
 Lemma has_var_func n ln args :
   has_var (TFunc n ln args) =
-  if fn_ok (TFunc n ln args) then
-    if String.eqb ln "var" && negb (match fn_args args with [] => true | _ => false end) then
-      match fn_args args with TIdent v _ :: _ => prefix "--" v | _ => false end
-    else existsb has_var args
-  else false.
-Proof.
-  reflexivity.
-Qed.
+  let a := remove_whitespace args in
+  if String.eqb ln "var" && negb (match a with [] => true | _ => false end) then
+    match a with
+    | TIdent v _ :: rest => prefix "--" v && match rest with [] => true | second :: _ => is_comma second end
+    | _ => false
+    end
+  else existsb has_var args.
+Proof. reflexivity. Qed.
 
 Lemma has_var_func_varfree n ln args :
   String.eqb ln "var" = false -> Forall (fun x => has_var x = false) args -> has_var (TFunc n ln args) = false.
 Proof.
-  intros Hln Hall. rewrite has_var_func. destruct (fn_ok _); auto. rewrite Hln. simpl.
+  intros Hln Hall. rewrite has_var_func. cbv zeta. rewrite Hln. cbn [andb].
   induction Hall as [|a r Ha _ IH]; simpl; auto. now rewrite Ha, IH.
 Qed.
 
-Lemma fn_args_nil args : fn_args args = [] -> existsb has_var args = false.
+Lemma ws_has_no_var args : remove_whitespace args = [] -> existsb has_var args = false.
 Proof.
-  induction args as [|a args IH]; intro H; auto.
-  unfold fn_args in H. simpl in H.
-  destruct (negb (is_ws a) && negb (is_comma a)) eqn:E; [discriminate|].
-  simpl. rewrite (IH H). destruct a; simpl in *; auto; discriminate.
+  unfold remove_whitespace. induction args as [|a args IH]; intro H; auto.
+  cbn [filter] in H. destruct (is_ws a) eqn:W; cbn [negb] in H; [|discriminate].
+  cbn [existsb]. rewrite (IH H). destruct a; try discriminate; reflexivity.
 Qed.
 
-(* a var() that counts names its custom property first *)
-Lemma has_var_var n ln args :
-  String.eqb ln "var" = true -> has_var (TFunc n ln args) = true ->
-  exists v lv default, fn_args args = TIdent v lv :: default.
-Proof.
-  intros Hln Hv. rewrite has_var_func, Hln in Hv.
-  destruct (fn_ok _); [|discriminate].
-  destruct (fn_args args) as [|a default] eqn:Ea.
-  - simpl in Hv. rewrite (fn_args_nil _ Ea) in Hv. discriminate.
-  - simpl in Hv. destruct a; try discriminate. eauto.
-Qed.
-
-Lemma fn_args_remove_ws args t d : fn_args args = t :: d -> remove_whitespace args <> [].
-Proof.
-  unfold fn_args, remove_whitespace. induction args as [|a args IH]; [discriminate|].
-  cbn [filter]. destruct (negb (is_ws a)); [discriminate|]. cbn [andb]. exact IH.
-Qed.
-
+(* a var() that counts has a first argument *)
 Lemma has_var_var_ws n ln args :
   String.eqb ln "var" = true -> has_var (TFunc n ln args) = true ->
   exists first rest, remove_whitespace args = first :: rest.
 Proof.
-  intros Hln Hv. destruct (has_var_var _ _ _ Hln Hv) as (v & lv & d & Ea).
-  pose proof (fn_args_remove_ws _ _ _ Ea) as N.
-  destruct (remove_whitespace args) as [|first rest]; [congruence|eauto].
+  intros Hln Hv. rewrite has_var_func in Hv. cbv zeta in Hv. rewrite Hln in Hv.
+  destruct (remove_whitespace args) as [|first rest] eqn:Ea; [|eauto].
+  cbn [andb negb] in Hv. rewrite (ws_has_no_var _ Ea) in Hv. discriminate.
 Qed.
+
+Definition sres_varfree (o : sres) : Prop :=
+  match o with SOk r => Forall (fun x => has_var x = false) r | SInvalid => True end.
 
 Section VarProofs.
   Variable env : string -> list tok.
   Notation resolve_var := (resolve_var env).
-  Notation Subst := (Subst env impl_key impl_fallback impl_var_name).
-  Notation SubstL := (SubstL env impl_key impl_fallback impl_var_name).
+  Notation Subst := (Subst env impl_key impl_fallback impl_has_fallback impl_var_name).
+  Notation SubstL := (SubstL env impl_key impl_fallback impl_has_fallback impl_var_name).
 
   Scheme Subst_mut := Minimality for C07Var.Subst Sort Prop
     with SubstL_mut := Minimality for C07Var.SubstL Sort Prop.
 
   (* ---- what substitution returns has no var() left *)
   Lemma subst_varfree :
-    (forall ps t r, Subst ps t r -> Forall (fun x => has_var x = false) r) /\
-    (forall ps l r, SubstL ps l r -> Forall (fun x => has_var x = false) r).
+    (forall ps t o, Subst ps t o -> sres_varfree o) /\
+    (forall ps l o, SubstL ps l o -> sres_varfree o).
   Proof.
+    assert (W : forall n ln o, String.eqb ln "var" = false -> sres_varfree o -> sres_varfree (wrap n ln o)).
+    { intros n ln [a|] Hln H; simpl in *; auto. constructor; auto. now apply has_var_func_varfree. }
+    assert (G : forall a o, Forall (fun x => has_var x = false) a -> sres_varfree o -> sres_varfree (glue a o)).
+    { intros a [b|] Ha H; simpl in *; auto. apply Forall_app. now split. }
     split.
-    - intros ps t r H.
-      induction H using Subst_mut with
-        (P0 := fun ps l r => Forall (fun x => has_var x = false) r); auto.
-      + constructor; auto. apply has_var_func_varfree; auto.
-      + apply Forall_app. split; assumption.
-    - intros ps l r H.
-      induction H using SubstL_mut with
-        (P := fun ps t r => Forall (fun x => has_var x = false) r); auto.
-      + constructor; auto. apply has_var_func_varfree; auto.
-      + apply Forall_app. split; assumption.
+    - intros ps t o H.
+      induction H using Subst_mut with (P0 := fun ps l o => sres_varfree o); simpl; auto.
+    - intros ps l o H.
+      induction H using SubstL_mut with (P := fun ps t o => sres_varfree o); simpl; auto.
   Qed.
 
   Lemma resolve_varfree fuel ps t x : has_var t = false -> resolve_var fuel ps t = Some x -> x = RNone.
@@ -129,124 +112,165 @@ Section VarProofs.
     intros H. destruct fuel; simpl; [discriminate|]. rewrite H. simpl. congruence.
   Qed.
 
+  Lemma lift_not_none o : lift o <> Some RNone.
+  Proof. destruct o as [[|]|]; discriminate. Qed.
+
   Lemma resolve_has_var fuel ps t : resolve_var fuel ps t = Some RNone -> has_var t = false.
   Proof.
-    destruct fuel; simpl; [discriminate|].
-    destruct (has_var t) eqn:E; simpl; auto.
+    destruct fuel; [discriminate|]. cbn [C07Var.resolve_var].
+    destruct (has_var t) eqn:E; cbn [negb]; auto.
     destruct t; try discriminate.
-    destruct (String.eqb ln "var") eqn:Hln; simpl.
+    destruct (String.eqb ln "var") eqn:Hln; cbn [negb].
     - destruct (has_var_var_ws _ _ _ Hln E) as (first & rest & Ea). rewrite Ea.
       destruct (str_in (var_key (tok_value first)) ps); [discriminate|].
-      destruct (subst_each _ _); discriminate.
-    - destruct (rebuild (resolve_var fuel ps) args) as [arguments|]; try discriminate.
-      destruct (resolve_var fuel ps (TFunc n ln arguments)) as [[|[|]]|]; discriminate.
+      destruct (env (var_key (tok_value first))) as [|e0 er].
+      + intro H. exfalso. eapply lift_not_none; eauto.
+      + destruct (subst_each _ (e0 :: er)) as [[|]|]; try discriminate.
+        destruct rest; [discriminate|]. intro H. exfalso. eapply lift_not_none; eauto.
+    - destruct (rebuild (resolve_var fuel ps) args) as [[arguments|]|]; try discriminate.
+      destruct (resolve_var fuel ps (TFunc n ln arguments)) as [[|[|]|]|]; discriminate.
   Qed.
 
   (* ---- soundness: whatever resolve_var returns is the substitution *)
-  Lemma subst_each_sound fuel ps vs r :
-    (forall t x, resolve_var fuel ps t = Some (RToks x) -> Subst ps t x) ->
-    subst_each (resolve_var fuel ps) vs = Some r -> SubstL ps vs r.
+  Definition agrees (ps : list string) (t : tok) (x : vres) : Prop :=
+    match x with
+    | RNone => has_var t = false
+    | RToks r => Subst ps t (SOk r)
+    | RInvalid => Subst ps t SInvalid
+    end.
+
+  Lemma subst_each_sound fuel ps vs o :
+    (forall t x, resolve_var fuel ps t = Some x -> agrees ps t x) ->
+    subst_each (resolve_var fuel ps) vs = Some o -> SubstL ps vs o.
   Proof.
-    intro IH. revert r. induction vs as [|v vs IHv]; intros r H; simpl in H.
+    intro IH. revert o. induction vs as [|v vs IHv]; intros o H; simpl in H.
     - inversion H. constructor.
     - destruct (resolve_var fuel ps v) as [x|] eqn:E; try discriminate.
-      destruct (subst_each (resolve_var fuel ps) vs) as [rest|] eqn:E2; try discriminate.
-      inversion H; subst. destruct x as [|l].
-      + change (v :: rest) with ([v] ++ rest)%list. constructor; auto.
-        apply S_plain. eapply resolve_has_var; eauto.
-      + constructor; auto.
+      pose proof (IH v x E) as A. destruct x as [|l|]; simpl in A.
+      + destruct (subst_each (resolve_var fuel ps) vs) as [rest|] eqn:E2; try discriminate.
+        assert (o = glue [v] rest) by (destruct rest; inversion H; reflexivity). subst.
+        apply SL_ok; auto. now apply S_plain.
+      + destruct (subst_each (resolve_var fuel ps) vs) as [rest|] eqn:E2; try discriminate.
+        assert (o = glue l rest) by (destruct rest; inversion H; reflexivity). subst.
+        apply SL_ok; auto.
+      + inversion H. now apply SL_invalid.
   Qed.
 
-  Lemma rebuild_sound fuel ps args r :
-    (forall t x, resolve_var fuel ps t = Some (RToks x) -> Subst ps t x) ->
-    rebuild (resolve_var fuel ps) args = Some r -> SubstL ps args r.
+  Lemma rebuild_sound fuel ps args o :
+    (forall t x, resolve_var fuel ps t = Some x -> agrees ps t x) ->
+    rebuild (resolve_var fuel ps) args = Some o -> SubstL ps args o.
   Proof.
-    intro IH. revert r. induction args as [|a args IHa]; intros r H; simpl in H.
+    intro IH. revert o. induction args as [|a args IHa]; intros o H; simpl in H.
     - inversion H. constructor.
     - destruct (is_func a) eqn:Fa.
-      + destruct (resolve_var fuel ps a) as [[|l]|] eqn:E; try discriminate;
-          destruct (rebuild (resolve_var fuel ps) args) as [rest|] eqn:E2; try discriminate;
-          inversion H; subst.
-        * change (a :: rest) with ([a] ++ rest)%list. constructor; auto.
-          apply S_plain. eapply resolve_has_var; eauto.
-        * constructor; auto.
+      + destruct (resolve_var fuel ps a) as [x|] eqn:E; try discriminate.
+        pose proof (IH a x E) as A. destruct x as [|l|]; simpl in A.
+        * destruct (rebuild (resolve_var fuel ps) args) as [rest|] eqn:E2; try discriminate.
+          assert (o = glue [a] rest) by (destruct rest; inversion H; reflexivity). subst.
+          apply SL_ok; auto. now apply S_plain.
+        * destruct (rebuild (resolve_var fuel ps) args) as [rest|] eqn:E2; try discriminate.
+          assert (o = glue l rest) by (destruct rest; inversion H; reflexivity). subst.
+          apply SL_ok; auto.
+        * inversion H. now apply SL_invalid.
       + destruct (rebuild (resolve_var fuel ps) args) as [rest|] eqn:E2; try discriminate.
-        inversion H; subst. change (a :: rest) with ([a] ++ rest)%list.
-        constructor; auto. apply S_plain. now apply has_var_nonfunc.
+        assert (o = glue [a] rest) by (destruct rest; inversion H; reflexivity). subst.
+        apply SL_ok; auto. apply S_plain. now apply has_var_nonfunc.
   Qed.
 
-  Theorem resolve_var_sound fuel ps t r : resolve_var fuel ps t = Some (RToks r) -> Subst ps t r.
+  Lemma lift_sound ps vs o x : SubstL ps vs o -> lift (Some o) = Some x ->
+    match x with RNone => False | RToks r => o = SOk r | RInvalid => o = SInvalid end.
+  Proof. destruct o; simpl; intros _ H; inversion H; reflexivity. Qed.
+
+  Theorem resolve_var_sound fuel ps t x : resolve_var fuel ps t = Some x -> agrees ps t x.
   Proof.
-    revert ps t r. induction fuel as [|f IH]; intros ps t r H; simpl in H; [discriminate|].
-    destruct (has_var t) eqn:Hv; simpl in H; [|discriminate].
+    revert ps t x. induction fuel as [|f IH]; intros ps t x H; [discriminate|]. cbn [C07Var.resolve_var] in H.
+    destruct (has_var t) eqn:Hv; cbn [negb] in H; [|inversion H; exact Hv].
     destruct t; try discriminate.
-    destruct (String.eqb ln "var") eqn:Hln; simpl in H.
+    destruct (String.eqb ln "var") eqn:Hln; cbn [negb] in H.
     - destruct (has_var_var_ws _ _ _ Hln Hv) as (first & rest & Ea). rewrite Ea in H.
-      destruct (str_in (var_key (tok_value first)) ps) eqn:Hc.
-      + inversion H; subst. apply S_cycle with (x := tok_value first); auto. unfold impl_var_name. now rewrite Ea.
-      + destruct (subst_each _ _) as [l|] eqn:Es; try discriminate. inversion H; subst.
-        apply S_var with (x := tok_value first); auto.
-        * unfold impl_var_name. now rewrite Ea.
-        * unfold impl_key, impl_fallback. rewrite Ea. cbn [tl].
-          destruct (env (var_key (tok_value first))); eapply subst_each_sound; eauto.
-    - destruct (rebuild (resolve_var f ps) args) as [arguments|] eqn:Er; try discriminate.
-      pose proof (rebuild_sound f ps args arguments (IH ps) Er) as HL.
-      assert (Hfree : has_var (TFunc n ln arguments) = false).
-      { apply has_var_func_varfree; auto. now apply (proj2 subst_varfree) in HL. }
-      destruct (resolve_var f ps (TFunc n ln arguments)) as [x|] eqn:Et; try discriminate.
-      rewrite (resolve_varfree _ _ _ _ Hfree Et) in H. inversion H; subst.
-      apply S_fun; auto.
+      assert (Hn : impl_var_name args = Some (tok_value first)) by (unfold impl_var_name; now rewrite Ea).
+      assert (Hf : impl_fallback args = tl rest) by (unfold impl_fallback; now rewrite Ea).
+      assert (Hh : impl_has_fallback args = match rest with [] => false | _ => true end)
+        by (unfold impl_has_fallback; rewrite Ea; destruct rest; reflexivity).
+      set (k := var_key (tok_value first)) in *.
+      destruct (str_in k ps) eqn:Hc.
+      { inversion H; subst. simpl. apply S_cycle with (x := tok_value first); auto. }
+      assert (Ek : forall P : list tok -> Prop, P (env k) -> P (env (impl_key (tok_value first)))) by (intros P HP; exact HP).
+      destruct (env k) as [|e0 erest] eqn:Ee.
+      + destruct (subst_each (resolve_var f ps) (tl rest)) as [o|] eqn:Es; try discriminate.
+        pose proof (subst_each_sound f ps _ o (IH ps) Es) as SL. rewrite <- Hf in SL.
+        destruct o as [l|]; inversion H; subst; simpl;
+          (apply S_undefined with (x := tok_value first); auto).
+      + assert (Ne : env (impl_key (tok_value first)) <> []) by (change (env k <> []); rewrite Ee; discriminate).
+        destruct (subst_each (resolve_var f (ps ++ [k])) (e0 :: erest)) as [[l|]|] eqn:Es; try discriminate.
+        * inversion H; subst. simpl. apply S_defined with (x := tok_value first); auto.
+          change (SubstL (ps ++ [k]) (env k) (SOk l)). rewrite Ee. eapply subst_each_sound; eauto.
+        * assert (SLi : SubstL (ps ++ [impl_key (tok_value first)]) (env (impl_key (tok_value first))) SInvalid).
+          { change (SubstL (ps ++ [k]) (env k) SInvalid). rewrite Ee. eapply subst_each_sound; eauto. }
+          destruct rest as [|r0 rest'].
+          { inversion H; subst. simpl. apply S_invalid_alone with (x := tok_value first); auto. }
+          destruct (subst_each (resolve_var f ps) (tl (r0 :: rest'))) as [o|] eqn:Es2; try discriminate.
+          pose proof (subst_each_sound f ps _ o (IH ps) Es2) as SL. rewrite <- Hf in SL.
+          destruct o as [l|]; inversion H; subst; simpl;
+            (apply S_invalid_fallback with (x := tok_value first); auto).
+    - destruct (rebuild (resolve_var f ps) args) as [[arguments|]|] eqn:Er; try discriminate.
+      + pose proof (rebuild_sound f ps args _ (IH ps) Er) as HL.
+        assert (Hfree : has_var (TFunc n ln arguments) = false).
+        { apply has_var_func_varfree; auto. exact (proj2 subst_varfree _ _ _ HL). }
+        destruct (resolve_var f ps (TFunc n ln arguments)) as [y|] eqn:Et; try discriminate.
+        rewrite (resolve_varfree _ _ _ _ Hfree Et) in H. inversion H; subst. simpl.
+        exact (S_fun _ _ _ _ _ ps n ln args (SOk arguments) Hv Hln HL).
+      + pose proof (rebuild_sound f ps args _ (IH ps) Er) as HL. inversion H; subst. simpl.
+        exact (S_fun _ _ _ _ _ ps n ln args SInvalid Hv Hln HL).
   Qed.
 
-  (* the tokens handed to Pending.solve are the substituted tokens of the declaration *)
-  Theorem solved_tokens_sound fuel tokens r :
-    solved_tokens env fuel tokens = Some r -> SubstL [] tokens r.
+  (* the tokens handed to Pending.solve are the substituted tokens of the declaration - or the declaration is
+     invalid at computed-value time exactly when substitution says so *)
+  Theorem solved_tokens_sound fuel tokens o :
+    solved_tokens env fuel tokens = Some o -> SubstL [] tokens o.
   Proof.
     unfold solved_tokens. apply subst_each_sound. intros t x. apply resolve_var_sound.
   Qed.
 
-  (* ---- every reference is substituted by itself: the tokens of a declaration are resolved one by one, and what
-     one token gives does not depend on the tokens around it (their names, their fallbacks) *)
+  (* ---- every reference is substituted by itself *)
   Lemma subst_each_app rv a b :
     subst_each rv (a ++ b) =
-    match subst_each rv a, subst_each rv b with
-    | Some x, Some y => Some (x ++ y)%list
-    | _, _ => None
+    match subst_each rv a with
+    | Some (SOk x) => match subst_each rv b with Some (SOk y) => Some (SOk (x ++ y)%list) | other => other end
+    | other => other
     end.
   Proof.
     induction a as [|v a IH]; simpl.
-    - destruct (subst_each rv b); reflexivity.
-    - destruct (rv v) as [res|]; [|reflexivity].
-      rewrite IH. destruct (subst_each rv a), (subst_each rv b); try reflexivity.
-      now rewrite app_assoc.
+    - destruct (subst_each rv b) as [[|]|]; reflexivity.
+    - destruct (rv v) as [[|l|]|]; try reflexivity;
+        rewrite IH; destruct (subst_each rv a) as [[x|]|]; try reflexivity;
+        destruct (subst_each rv b) as [[y|]|]; try reflexivity; now rewrite app_assoc.
   Qed.
 
   Theorem references_are_independent fuel before t after r :
-    solved_tokens env fuel (before ++ t :: after) = Some r ->
+    solved_tokens env fuel (before ++ t :: after) = Some (SOk r) ->
     exists rb rt ra, r = (rb ++ rt ++ ra)%list /\
-                     solved_tokens env fuel before = Some rb /\ solved_tokens env fuel [t] = Some rt /\
-                     solved_tokens env fuel after = Some ra.
+                     solved_tokens env fuel before = Some (SOk rb) /\ solved_tokens env fuel [t] = Some (SOk rt) /\
+                     solved_tokens env fuel after = Some (SOk ra).
   Proof.
     unfold solved_tokens. rewrite subst_each_app.
-    destruct (subst_each _ before) as [rb|]; [|discriminate].
+    destruct (subst_each _ before) as [[rb|]|]; try discriminate.
     change (t :: after) with ([t] ++ after)%list. rewrite subst_each_app.
-    destruct (subst_each _ [t]) as [rt|]; [|discriminate].
-    destruct (subst_each _ after) as [ra|]; [|discriminate].
+    destruct (subst_each _ [t]) as [[rt|]|]; try discriminate.
+    destruct (subst_each _ after) as [[ra|]|]; try discriminate.
     intro H. inversion H. eauto 10.
   Qed.
 
-  (* a reference to a defined property ignores its fallback; a reference to an undefined one is its own fallback *)
-  Theorem fallback_unused_when_defined fuel ps n ln v lv fb1 fb2 :
-    env (var_key v) <> [] ->
-    has_var (TFunc n ln (TIdent v lv :: TLit "," :: fb1)) = true ->
-    has_var (TFunc n ln (TIdent v lv :: TLit "," :: fb2)) = true -> String.eqb ln "var" = true ->
-    resolve_var fuel ps (TFunc n ln (TIdent v lv :: TLit "," :: fb1)) =
-    resolve_var fuel ps (TFunc n ln (TIdent v lv :: TLit "," :: fb2)).
+  (* a reference to a property whose value substitutes well does not look at its fallback *)
+  Theorem fallback_unused_when_defined fuel ps n ln v lv fb e0 erest l :
+    env (var_key v) = e0 :: erest -> str_in (var_key v) ps = false ->
+    subst_each (resolve_var fuel (ps ++ [var_key v])) (e0 :: erest) = Some (SOk l) ->
+    has_var (TFunc n ln (TIdent v lv :: TLit "," :: fb)) = true -> String.eqb ln "var" = true ->
+    resolve_var (S fuel) ps (TFunc n ln (TIdent v lv :: TLit "," :: fb)) = Some (RToks l).
   Proof.
-    intros Hd H1 H2 Hln. destruct fuel; [reflexivity|]. cbn [C07Var.resolve_var].
-    rewrite H1, H2, Hln. cbn [negb]. unfold remove_whitespace. cbn [filter is_ws negb tok_value].
-    destruct (str_in (var_key v) ps); [reflexivity|].
-    destruct (env (var_key v)); [congruence|reflexivity].
+    intros Hd Hc Hs H1 Hln. cbn [C07Var.resolve_var].
+    rewrite H1, Hln. cbn [negb]. unfold remove_whitespace. cbn [filter is_ws negb tok_value].
+    rewrite Hc, Hd, Hs. reflexivity.
   Qed.
 
   (* a reference to an undefined property is its own fallback: the textual remainder after the first comma *)
@@ -254,10 +278,22 @@ Section VarProofs.
     env (var_key v) = [] -> str_in (var_key v) ps = false ->
     has_var (TFunc n ln (TIdent v lv :: TLit "," :: fb)) = true -> String.eqb ln "var" = true ->
     resolve_var (S fuel) ps (TFunc n ln (TIdent v lv :: TLit "," :: fb)) =
-    match subst_each (resolve_var fuel ps) (remove_whitespace fb) with Some l => Some (RToks l) | None => None end.
+    lift (subst_each (resolve_var fuel ps) (remove_whitespace fb)).
   Proof.
     intros Hu Hc H1 Hln. cbn [C07Var.resolve_var]. rewrite H1, Hln. cbn [negb].
     unfold remove_whitespace. cbn [filter is_ws negb tok_value tl]. rewrite Hc, Hu. reflexivity.
+  Qed.
+
+  (* a reference to a property that is invalid (a cycle) is its own fallback too *)
+  Theorem fallback_used_when_invalid fuel ps n ln v lv fb e0 erest :
+    env (var_key v) = e0 :: erest -> str_in (var_key v) ps = false ->
+    subst_each (resolve_var fuel (ps ++ [var_key v])) (e0 :: erest) = Some SInvalid ->
+    has_var (TFunc n ln (TIdent v lv :: TLit "," :: fb)) = true -> String.eqb ln "var" = true ->
+    resolve_var (S fuel) ps (TFunc n ln (TIdent v lv :: TLit "," :: fb)) =
+    lift (subst_each (resolve_var fuel ps) (remove_whitespace fb)).
+  Proof.
+    intros Hd Hc Hs H1 Hln. cbn [C07Var.resolve_var]. rewrite H1, Hln. cbn [negb].
+    unfold remove_whitespace. cbn [filter is_ws negb tok_value tl]. rewrite Hc, Hd, Hs. reflexivity.
   Qed.
 
   (* ---- fuel suffices when the definitions are acyclic *)
@@ -271,7 +307,8 @@ Section VarProofs.
     induction vs as [|v vs IH]; intros H f Hf; simpl.
     - eauto.
     - destruct (H v (or_introl eq_refl) f Hf) as [x Hx]. rewrite Hx.
-      destruct (IH (fun u Hu => H u (or_intror Hu)) f Hf) as [rest Hrest]. rewrite Hrest. eauto.
+      destruct (IH (fun u Hu => H u (or_intror Hu)) f Hf) as [rest Hrest]. rewrite Hrest.
+      destruct x; destruct rest; eauto.
   Qed.
 
   Lemma rebuild_total F ps args :
@@ -281,8 +318,8 @@ Section VarProofs.
     induction args as [|a args IH]; intros H f Hf; simpl.
     - eauto.
     - destruct (IH (fun u Hu => H u (or_intror Hu)) f Hf) as [rest Hrest]. rewrite Hrest.
-      destruct (is_func a) eqn:Fa; [|eauto].
-      destruct (H a (or_introl eq_refl) f Hf) as [[|l] Hl]; rewrite Hl; eauto.
+      destruct (is_func a) eqn:Fa; [|destruct rest; eauto].
+      destruct (H a (or_introl eq_refl) f Hf) as [[|l|] Hl]; rewrite Hl; destruct rest; eauto.
   Qed.
 
   Lemma forallb_fix (g : tok -> bool) args :
@@ -300,8 +337,8 @@ Section VarProofs.
       + apply Hl; auto. lia.
   Qed.
 
-  Lemma in_fn_args a args : In a (fn_args args) -> In a args.
-  Proof. unfold fn_args. intro H. apply filter_In in H. tauto. Qed.
+  Lemma lift_total o : exists x, lift (Some o) = Some x.
+  Proof. destruct o; simpl; eauto. Qed.
 
   Theorem resolve_var_fuel_sufficient n t :
     refs_lt rk n t = true ->
@@ -326,43 +363,50 @@ Section VarProofs.
     - destruct (has_var_var_ws _ _ _ Hln Hv) as (first & rest & Ea).
       rewrite Ea in Hname. apply Nat.ltb_lt in Hname.
       set (k := var_key (tok_value first)) in *.
+      assert (Dflt : forall u, In u (tl rest) -> In u args).
+      { intros u Hu.
+        assert (In u (remove_whitespace args)).
+        { rewrite Ea. right. destruct rest; [destruct Hu|now right]. }
+        unfold remove_whitespace in H. apply filter_In in H. tauto. }
+      destruct (Bargs ps) as [Fa HFa].
       destruct (str_in k ps) eqn:Hc.
       { exists 1%nat. intros f Hf. destruct f as [|f]; [lia|].
         cbn [C07Var.resolve_var]. rewrite Hv, Hln, Ea. fold k. rewrite Hc. simpl. eauto. }
       destruct (env k) as [|e0 erest] eqn:Ee.
-      + destruct (Bargs ps) as [Fa HFa].
-        exists (S Fa). intros f Hf. destruct f as [|f]; [lia|].
+      + exists (S Fa). intros f Hf. destruct f as [|f]; [lia|].
         cbn [C07Var.resolve_var]. rewrite Hv, Hln, Ea. fold k. rewrite Hc, Ee. cbn [negb].
         destruct (subst_each_total Fa ps (tl rest)) with (f := f) as [r Hr]; [|lia|].
-        * intros u Hu. apply HFa.
-          assert (In u (remove_whitespace args)).
-          { rewrite Ea. right. destruct rest; [destruct Hu|now right]. }
-          unfold remove_whitespace in H. apply filter_In in H. tauto.
-        * rewrite Hr. eauto.
+        * intros u Hu. apply HFa. now apply Dflt.
+        * rewrite Hr. apply lift_total.
       + assert (Benv : exists F, forall u, In u (e0 :: erest) -> forall f, (F <= f)%nat ->
                          exists x, resolve_var f (ps ++ [k]) u = Some x).
         { apply (common_bound (fun u f => exists x, resolve_var f (ps ++ [k]) u = Some x)).
           pose proof (Hranked k) as Hk. rewrite Ee in Hk. rewrite Forall_forall in *.
           intros u Hu. apply (IHn _ Hname u (Hk u Hu)). }
         destruct Benv as [Fe HFe].
-        exists (S Fe). intros f Hf. destruct f as [|f]; [lia|].
+        exists (S (Nat.max Fe Fa)). intros f Hf. destruct f as [|f]; [lia|].
         cbn [C07Var.resolve_var]. rewrite Hv, Hln, Ea. fold k. rewrite Hc, Ee. cbn [negb].
         destruct (subst_each_total Fe (ps ++ [k]) (e0 :: erest) HFe f) as [r Hr]; [lia|].
-        rewrite Hr. eauto.
+        rewrite Hr. destruct r as [l|]; [eauto|].
+        destruct rest as [|r0 rest']; [eauto|].
+        destruct (subst_each_total Fa ps (tl (r0 :: rest'))) with (f := f) as [r2 Hr2]; [|lia|].
+        * intros u Hu. apply HFa. now apply Dflt.
+        * rewrite Hr2. apply lift_total.
     - destruct (Bargs ps) as [Fa HFa].
       exists (S (S Fa)). intros f Hf. destruct f as [|f]; [lia|].
       cbn [C07Var.resolve_var]. rewrite Hv, Hln. cbn [negb].
       destruct (rebuild_total Fa ps args HFa f) as [r Hr]; [lia|]. rewrite Hr.
+      destruct r as [r|]; [|eauto].
       assert (Hfree : has_var (TFunc nm ln r) = false).
       { apply has_var_func_varfree; auto.
-        apply (proj2 subst_varfree ps args). eapply rebuild_sound; eauto.
+        apply (proj2 subst_varfree ps args (SOk r)). eapply rebuild_sound; eauto.
         intros t0 x0. apply resolve_var_sound. }
       destruct f as [|f]; [lia|]. cbn [C07Var.resolve_var]. rewrite Hfree. simpl. eauto.
   Qed.
 
   Theorem solved_tokens_fuel_sufficient n tokens :
     Forall (fun t => refs_lt rk n t = true) tokens ->
-    exists F, forall f, (F <= f)%nat -> exists r, solved_tokens env f tokens = Some r /\ SubstL [] tokens r.
+    exists F, forall f, (F <= f)%nat -> exists o, solved_tokens env f tokens = Some o /\ SubstL [] tokens o.
   Proof.
     intro H.
     destruct (common_bound (fun t f => exists x, resolve_var f [] t = Some x) tokens) as [F HF].
@@ -372,15 +416,19 @@ Section VarProofs.
   Qed.
 End VarProofs.
 
-(* ------------------------------------------------------------------ where it is not substitution *)
+(* ------------------------------------------------------------------ cycles, fallbacks, names *)
 Definition VAR (name : string) (rest : list tok) := TFunc "var" "var" (TIdent name name :: rest).
 
-(* 1. a reference back into a cycle is erased, the fallback of the outer reference is never used:
-   --x: 1 var(--x) ; var(--x, 7) gives 1 where CSS makes --x invalid and takes the fallback 7 *)
-Theorem cycle_is_erased :
+(* a property that refers to itself is invalid at computed-value time: var(--x, 7) is 7, var(--x) alone makes the
+   declaration invalid (it used to erase the reference and never use the fallback: finding F180, repaired) *)
+Theorem cycle_uses_fallback :
   let env := fun k => if String.eqb k "__x" then [TAtom 1; VAR "--x" []] else [] in
-  solved_tokens env 5 [VAR "--x" [TLit ","; TAtom 7]] = Some [TAtom 1].
-Proof. reflexivity. Qed.
+  solved_tokens env 5 [VAR "--x" [TLit ","; TAtom 7]] = Some (SOk [TAtom 7]) /\
+  solved_tokens env 5 [VAR "--x" []; TAtom 2] = Some SInvalid /\
+  (let env2 := fun k => if String.eqb k "__x" then [VAR "--y" []] else
+                        if String.eqb k "__y" then [VAR "--x" []] else [] in
+   solved_tokens env2 6 [VAR "--x" [TLit ","; TAtom 7]; VAR "--y" [TLit ","; TAtom 8]] = Some (SOk [TAtom 7; TAtom 8])).
+Proof. repeat split; reflexivity. Qed.
 
 (* the fallback is the textual remainder after the first comma, commas included: what the grammar
    var( <custom-property-name> [, <declaration-value>]? ) says (css_fallback) *)
@@ -447,20 +495,15 @@ Proof. discriminate. Qed.
    var:undefined-dropped; only a value made of the var() alone ends with no tokens, which solve() refuses) *)
 Theorem undefined_var_is_erased :
   let env := fun _ : string => @nil tok in
-  solved_tokens env 2 [VAR "--p" []; TWs; TAtom 2] = Some [TWs; TAtom 2] /\
-  solved_tokens env 2 [VAR "--p" []] = Some [].
+  solved_tokens env 2 [VAR "--p" []; TWs; TAtom 2] = Some (SOk [TWs; TAtom 2]) /\
+  solved_tokens env 2 [VAR "--p" []] = Some (SOk []).
 Proof. split; reflexivity. Qed.
-
-Theorem var_refuted :
-  let env := fun k => if String.eqb k "__x" then [TAtom 1; VAR "--x" []] else [] in
-  solved_tokens env 5 [VAR "--x" [TLit ","; TAtom 7]] = Some [TAtom 1].
-Proof. exact cycle_is_erased. Qed.
 
 (* a var()-free function next to a var() inside a function is kept (it used to raise) *)
 Example plain_function_argument_kept :
   let env := fun k => if String.eqb k "__a" then [TAtom 5] else [] in
   solved_tokens env 4 [TFunc "calc" "calc" [VAR "--a" []; TFunc "max" "max" [TAtom 1]]] =
-  Some [TFunc "calc" "calc" [TAtom 5; TFunc "max" "max" [TAtom 1]]].
+  Some (SOk [TFunc "calc" "calc" [TAtom 5; TFunc "max" "max" [TAtom 1]]]).
 Proof. reflexivity. Qed.
 
 (* the hypotheses of the sufficiency theorem are satisfiable: --a: var(--b) 1 ; --b: 2 *)
@@ -470,7 +513,7 @@ Example ranked_example :
   let rk := fun k => if String.eqb k "__a" then 1%nat else 0%nat in
   ranked env rk /\
   solved_tokens env 6 [TFunc "calc" "calc" [VAR "--a" []; TWs; VAR "--u" [TLit ","; TAtom 7]]] =
-  Some [TFunc "calc" "calc" [TAtom 2; TAtom 1; TWs; TAtom 7]].
+  Some (SOk [TFunc "calc" "calc" [TAtom 2; TAtom 1; TWs; TAtom 7]]).
 Proof.
   intros env rk. split; [|reflexivity].
   intro k. unfold env, rk.
